@@ -407,5 +407,8 @@ PROPS["C13"]["explanation"] += " (TABLEFREE) a routine that releases an id-index
 PROPS["C14"]["rules"] = PROPS["C14"]["rules"] + [rules_access.rule_close_version_guard]
 PROPS["C14"]["explanation"] += " (CLOSEVER) the version element is brought up to date at close only under a test of write access, so a read-only file without a version element can be closed."
 
+PROPS["C14"]["rules"] = PROPS["C14"]["rules"] + [rules_access.rule_readonly_shortcut_is_read]
+PROPS["C14"]["explanation"] += " (ROSHORTCUT) the fill-value shortcut of the SD data path for read-only files is confined to reads."
+
 NOT_APPLICABLE = {}
 
